@@ -103,6 +103,7 @@ RunStep ==
             /\ (how = "cancel" => pc[a] = "eLoop" /\ pc'[a] = "rFail")
             /\ cur' = Upd(a, how)
        /\ (cur.wake /\ pc[a] = "rMu" => pc'[a] # "rFail")   \* cannot cancel a waiter deterministically
+       /\ (pc[a] = "mAdd" => \A j \in todo'[a] : \A i \in todo[a] \ todo'[a] : i < j)  \* blocks are passed in key order
        /\ UNCHANGED <<hist, running, waiting, flushed, store0>>
 
 Wakeable == {w \in waiting : ~Blocked(w)}
